@@ -120,6 +120,9 @@ def run(tier, seed):
                         if after != list(orig):
                             why = f"changed its {'first' if name == 'a' else 'second'} sequence argument {list(orig)} into {after}"
                             got = ("argument", name)
+            # entered again from inside its own predicate (another sequence, other bounds) the outer call returns the same
+            if not why and "re" in cell and cell["re"] != cell["v"]:
+                why = f"=> {norm(cell['re'], row['t']) if cell['re'].get('k') != 'error' else cell['re']} when the same form is entered again from its predicate, {got} otherwise"
             if not why:
                 continue
             feat = known_shape(row, kind, cell, got, want)
@@ -137,7 +140,7 @@ def run(tier, seed):
                             "(incl. absent) x :from-end x :count x :key x :test combination the function takes, rendered as list, vector and "
                             "string; two-sequence functions over a two-letter alphabet with all four bounds; sorting family additionally on "
                             "random sequences up to length 9/12 with ties; expected results computed by TLC from the transcribed definitions "
-                            "(SeqFuns.tla, whose own laws TLC checks as an invariant); distinct_nontrivial = distinct parameter rows",
+                            "(SeqFuns.tla, whose own laws TLC checks as an invariant); every fifth call of an -if / -if-not function with bounds is made once more from a function whose predicate enters the same form again (another sequence, other bounds) and must return the same; distinct_nontrivial = distinct parameter rows",
                     "samples": [{k: r[k] for k in ("fn", "a", "b", "item", "kw", "t", "v")} for r in rows[:: max(1, len(rows) // 3)][:3]],
                     "functions": sorted(fns), "probes": {k: len(v) for k, v in hit.items()}})
     return rep.finish()
